@@ -1,7 +1,12 @@
 #!/bin/bash
-# Offline setup: warm the Go build cache for the checkers.
+# Offline setup: warm the Go build cache for the checkers (plain and instrumented).
 set -e
 cd "$(dirname "$0")"
 export GOFLAGS=-mod=mod GOPROXY=off GOSUMDB=off GOTOOLCHAIN=local
-go build -o /dev/null ./cmd/vcheck
+S=$(mktemp -d /tmp/vsetup.XXXXXX); trap 'rm -rf "$S"' EXIT
+go build -o "$S/vcheck" ./cmd/vcheck
+go build -o "$S/instr" ./cmd/instr
+"$S/instr" -repo /repo -out "$S/ov" -pkgs rtcm/handler,rtcm/pushback,file_handler,apps/appcore,apps/proxy/circular_queue -time file_handler -yield apps/proxy/circular_queue 2>/dev/null
+go build -overlay "$S/ov/overlay.json" -o "$S/mclib" ./cmd/mclib
+go test -count=1 ./mc/mcrt/ > "$S/mcrt.log" 2>&1 || { cat "$S/mcrt.log"; echo "scheduler self-tests failed"; exit 1; }
 echo setup ok
